@@ -1,5 +1,5 @@
 CONSTANTS
-  SeedIds = {1, 2, 3, 4, 5, 6}
+  SeedIds = {1, 2, 3, 4, 5, 6, 7}
   Focus = {"SetName","ReplaceInput","GInsertBefore","IOAppend","IOPop","InitAdd","SetType","SetShape","AttachSub","SetTensor","ResizeOutputs"}
   MaxDepth = 4
   EditVals = {1, 6, 7}
